@@ -381,6 +381,27 @@ def desugar_combinators(prog, F, host):
                 if not dest['p']:
                     produced.add(dest['l'])
             continue
+        if nm == 'checked_add' and not cal.get('trait') and (cal.get('self_ty') or '') in INT_TYPES:
+            # x.checked_add(c)  ==  if x <= MAX - c { Some(x + c) } else { None }   (unsigned, constant c)
+            blk = c.point[0]
+            t = host['blocks'][blk]['term']
+            if t['k'] == 'call' and t.get('target') is not None and len(t['args']) == 2 and t['args'][1].get('k') == 'const' and isinstance(t['args'][1].get('val'), int):
+                span, dest, target = t['span'], t['dest'], t['target']
+                ity = cal['self_ty']
+                mx = {'u8': 2 ** 8 - 1, 'u16': 2 ** 16 - 1, 'u32': 2 ** 32 - 1, 'u64': 2 ** 64 - 1, 'usize': 2 ** 64 - 1}[ity]
+                cnd = _new_local(host, 'bool')
+                sm = _new_local(host, ity)
+                stmts0 = list(host['blocks'][blk]['stmts'])
+                bound = dict(t['args'][1]); bound['val'] = mx - t['args'][1]['val']; bound['def'] = None; bound['text'] = str(bound['val'])
+                stmts0.append(_assign(_pl(cnd, 'bool'), {'k': 'bin', 'op': 'Le', 'a': t['args'][0], 'b': bound}, span))
+                some_b = _new_block(host, [_assign(_pl(sm, ity), {'k': 'bin', 'op': 'Add', 'a': t['args'][0], 'b': t['args'][1]}, span),
+                                           _assign(dest, _opt('Some', [{'k': 'move', 'place': _pl(sm, ity)}]), span)], {'k': 'goto', 'target': target, 'span': span})
+                none_b = _new_block(host, [_assign(dest, _opt('None', []), span)], {'k': 'goto', 'target': target, 'span': span})
+                host['blocks'][blk] = {'cleanup': False, 'stmts': stmts0, 'term': {'k': 'switch', 'discr': {'k': 'move', 'place': _pl(cnd, 'bool')}, 'dty': 'bool', 'targets': [[0, none_b]], 'otherwise': some_b, 'span': span}}
+                n += 1
+                if not dest['p']:
+                    produced.add(dest['l'])
+            continue
         if nm not in COMBINATORS or cal.get('trait'):
             continue
         if nm in NO_CLOSURE:
@@ -629,7 +650,7 @@ def expand(prog):
                     sites.append((c.point[0], H, binding, flags))
             comb = [c for c in F.body.calls if (c.callee or {}).get('name') in COMBINATORS and not (c.callee or {}).get('trait') and ((c.callee or {}).get('closure_args') or (c.callee or {}).get('name') in NO_CLOSURE)
                     and ((c.callee or {}).get('self_ty') == 'bool' or ((c.callee or {}).get('self_ty') or '').startswith('std::option::Option'))]
-            comb += [c for c in F.body.calls if (c.callee or {}).get('name') == 'checked_sub' and not (c.callee or {}).get('trait') and ((c.callee or {}).get('self_ty') or '') in INT_TYPES]
+            comb += [c for c in F.body.calls if (c.callee or {}).get('name') in ('checked_sub', 'checked_add') and not (c.callee or {}).get('trait') and ((c.callee or {}).get('self_ty') or '') in INT_TYPES]
             comb += [c for c in F.body.calls if (c.callee or {}).get('name') in ('branch', 'from_residual') and ((c.callee or {}).get('trait') or '').split('::')[-1] in ('Try', 'FromResidual') and ((c.callee or {}).get('self_ty') or '').startswith('std::option::Option')]
             # a lone `unwrap_or` is never rewritten on its own
             if comb and all((c.callee or {}).get('name') in NO_CLOSURE for c in comb):
